@@ -109,7 +109,8 @@ Proof. induction t; simpl; km. Qed.
 Definition values_keepM (n : nat) : Prop :=
   (forall v, keepsM (index_value n v)) /\ (forall x, keepsM (index_inner n x)) /\
   (forall sv, keepsM (index_simple n sv)) /\ (forall a, keepsM (index_arg n a)) /\
-  (forall op an vs r, keepsM (index_bang n op an vs r)).
+  (forall op an vs r, keepsM (index_bang n op an vs r)) /\
+  (forall op a vs r, keepsM (index_bang_ops n op a vs r)).
 
 Lemma kM_sufs_loop : forall (l : list suffix) t,
     keepsM ((fix sufs_loop (t : mty) (l : list suffix) : M mty :=
@@ -130,9 +131,15 @@ Lemma kM_sufs_loop : forall (l : list suffix) t,
          end) t l).
 Proof. induction l as [|sf r IH]; intros t; km; apply IH. Qed.
 
+Lemma kM_index_annot : forall op an r, keepsM (index_annot op an r).
+Proof. intros. unfold index_annot. km. Qed.
+Lemma kM_check_arity : forall op vs r, keepsM (check_arity op vs r).
+Proof. intros. unfold check_arity. km. Qed.
+#[export] Hint Resolve kM_index_annot kM_check_arity : keepsM.
+
 Lemma values_keepM_all : forall n, values_keepM n.
 Proof.
-  induction n as [|n [IHv [IHi [IHs [IHa IHb]]]]].
+  induction n as [|n [IHv [IHi [IHs [IHa [IHb IHo]]]]]].
   - repeat split; intros; simpl; auto with keepsM.
   - repeat split.
     + intros [r [|first rest]]; simpl; km. apply kM_iterM; intros; apply IHi.
@@ -140,8 +147,8 @@ Proof.
     + intros sv; destruct sv; simpl; km;
         try (apply kM_iterM; intros; apply IHv); try (apply kM_mapM_opt; intros; first [apply IHv|apply IHa]).
     + intros a; destruct a; simpl; km; apply IHv.
-    + intros op an vs r; simpl.
-      apply kM_bind; [km|]. intros a. apply kM_seq; [km|].
+    + intros op an vs r; simpl. km.
+    + intros op a vs r; simpl.
       destruct op; simpl;
         km; try (apply kM_iterM; intros; km; apply IHv); try (apply kM_mapM_opt; intros; apply IHv).
 Qed.
